@@ -1,7 +1,7 @@
 //! C11: flatten / unflatten regroup elements in row-major order over the same storage.
 //! Encodings: see coq/theories/CorrC11.v.
 //!
-//! case = op, ety, sz, A, B, wi, wv    (ety 0 u32, 1 Tr, 2 Tz, 3 Tb: one byte with a destructor, identities mod 256; sz = size_of::<T>())
+//! case = op, ety, sz, A, B, wi, wv    (ety 0 u32, 1 Tr, 2 Tz, 3 Tb: one byte with a destructor, identities mod 256, 4 Tri: 12 plain bytes with alignment 4 (a size that is not a power of two); sz = size_of::<T>())
 //! op 0/1/2 flatten owned / & / &mut with (N, M) = (A, B), leaf (i, j) has id 1000*i + j
 //! op 3/4/5 unflatten owned / & / &mut with (NM, N) = (A, B), element k has id 7*k + 3
 use generic_array::sequence::{Flatten, GenericSequence, Unflatten};
@@ -48,6 +48,27 @@ impl Elem for Tb {
     }
     fn set(&mut self, id: i64) {
         self.0 = id as u8
+    }
+}
+/// plain data whose size (12) is not a power of two and not its alignment (4)
+#[derive(Clone, Copy)]
+struct Tri {
+    a: u32,
+    b: u32,
+    c: u32,
+}
+impl Elem for Tri {
+    fn mk(id: i64) -> Tri {
+        Tri { a: id as u32, b: !(id as u32), c: 0xC0FFEE }
+    }
+    fn id(&self) -> i64 {
+        if self.b != !self.a || self.c != 0xC0FFEE {
+            return -1;
+        }
+        self.a as i64
+    }
+    fn set(&mut self, id: i64) {
+        *self = Tri::mk(id)
     }
 }
 impl Elem for Tz {
@@ -295,6 +316,7 @@ macro_rules! pairs {
                     0 => $f::<u32, $x, $y>($case),
                     1 => $f::<Tr, $x, $y>($case),
                     3 => $f::<Tb, $x, $y>($case),
+                    4 => $f::<Tri, $x, $y>($case),
                     _ => $f::<Tz, $x, $y>($case),
                 });
             }
@@ -345,6 +367,7 @@ fn size_of_ety(ety: i128) -> i128 {
         0 => size_of::<u32>(),
         1 => size_of::<Tr>(),
         3 => size_of::<Tb>(),
+        4 => size_of::<Tri>(),
         _ => size_of::<Tz>(),
     }) as i128
 }
@@ -404,7 +427,7 @@ fn main() {
         }
     }
     un_pairs.extend([(1024, 1), (1024, 1024), (1024, 16), (1024, 64)]);
-    for ety in 0..4i128 {
+    for ety in 0..5i128 {
         let sz = size_of_ety(ety);
         for &(n, m) in &fl_pairs {
             let len = n * m;
